@@ -192,7 +192,11 @@ def _clobbers(stmts: list[ast.stmt], rhs: ast.expr) -> bool:
     rtxt = norm(rhs)
     reads_registry = any(r in rtxt for r in REGISTRY_NAMES)
     read_names = {n.id for n in ast.walk(rhs) if isinstance(n, ast.Name)}
-    attr_bases = {norm(n.value) for n in ast.walk(rhs) if isinstance(n, (ast.Attribute, ast.Subscript))}
+    def stable(n: ast.AST) -> bool:
+        """x.__class__, x.__class__.__name__ : the class of an object (and its name) does not change."""
+        return isinstance(n, ast.Attribute) and (n.attr == "__class__" or (n.attr in ("__name__", "__qualname__") and isinstance(n.value, ast.Attribute) and n.value.attr == "__class__"))
+
+    attr_bases = {norm(n.value) for n in ast.walk(rhs) if isinstance(n, (ast.Attribute, ast.Subscript)) and not stable(n)}
     getattr_bases = {norm(n.args[0]) for n in ast.walk(rhs) if isinstance(n, ast.Call) and dotted(n.func) in ("getattr", "hasattr") and n.args}
     # anything read through an object (attribute, item, call result) may be changed by a call of unknown effect
     reads_heap = bool(attr_bases or getattr_bases) or any(isinstance(n, ast.Call) for n in ast.walk(rhs))
